@@ -74,8 +74,8 @@ def run(tier, seed):
     for s0, s1 in ((1.0, 0.0), (0.0, 1.0), (0.0, 0.0), (0.5, 0.5)):
         zs = {"tasks": [{"name": "T0", "work": 3.0, "nf": True}, {"name": "T1", "work": 2.0, "nf": True}], "links": [],
               "components": [{"name": "C0", "tasks": [0], "space": s0}, {"name": "C1", "tasks": [1], "space": s1}],
-              "workplaces": [{"name": "WP0", "cap": 1.0, "targets": [0, 1], "facilities": [{"name": "F0", "skills": {"T0": 1.0, "T1": 1.0}}, {"name": "F1", "skills": {"T0": 1.0, "T1": 1.0}}]}],
-              "teams": [{"name": "TM0", "targets": [0, 1], "workers": [{"name": "W%d" % i, "skills": {"T0": 1.0, "T1": 1.0}, "fskills": {"F0": 1.0, "F1": 1.0}} for i in range(2)]}]}
+              "workplaces": [{"name": "WP0", "cap": 1.0, "targets": [0, 1], "facilities": [{"name": "F0", "skills": {"T0": 1.0}}, {"name": "F1", "skills": {"T1": 1.0}}]}],
+              "teams": [{"name": "TM0", "targets": [0, 1], "workers": [{"name": "W0", "skills": {"T0": 1.0}, "fskills": {"F0": 1.0}}, {"name": "W1", "skills": {"T1": 1.0}, "fskills": {"F1": 1.0}}]}]}  # one crew and one machine per task
         extra.append((zs, {"rule": "TSLACK", "max_time": 14}))
     for fl in list(F.flows(3, F.KINDS4, (1, 2)))[:: (9 if tier == "quick" else 2)]:
         if fl["links"]:
